@@ -272,7 +272,7 @@ func (v *violation) key() string { return v.Class + "@" + v.Site }
 
 func workerEnv(dir string, w int, extra ...string) []string {
 	env := os.Environ()
-	env = append(env, "GORACE=log_path="+filepath.Join(dir, fmt.Sprintf("race%d", w))+" halt_on_error=0")
+	env = append(env, "GORACE=log_path="+filepath.Join(dir, fmt.Sprintf("race%d", w))+" halt_on_error=0 atexit_sleep_ms=0 exitcode=0")
 	env = append(env, extra...)
 	return env
 }
@@ -400,13 +400,14 @@ func replayOnce(worker, dir string, c caseDoc, strict bool, tag string) (caseDoc
 }
 
 type knownFinding struct {
-	Status   string `json:"status"` // open | fixed
-	Property string `json:"property"`
-	Class    string `json:"class"`
-	Site     string `json:"site"`
-	What     string `json:"what"`
-	Commit   string `json:"commit,omitempty"`
-	Witness  any    `json:"witness,omitempty"`
+	Status   string   `json:"status"` // open | fixed
+	Property string   `json:"property"`
+	Class    string   `json:"class"`
+	Site     string   `json:"site"`
+	SiteAny  []string `json:"site_any,omitempty"` // alternative to site: matches if the violation site contains any of these
+	What     string   `json:"what"`
+	Commit   string   `json:"commit,omitempty"`
+	Witness  any      `json:"witness,omitempty"`
 }
 
 func loadKnown() []knownFinding {
@@ -426,8 +427,16 @@ func loadKnown() []knownFinding {
 func matchKnown(kf []knownFinding, id string, v *violation) *knownFinding {
 	for i := range kf {
 		k := &kf[i]
-		if k.Status == "open" && k.Property == id && k.Class == v.Class && k.Site == v.Site {
+		if k.Status != "open" || k.Property != id || k.Class != v.Class {
+			continue
+		}
+		if k.Site != "" && k.Site == v.Site {
 			return k
+		}
+		for _, sub := range k.SiteAny {
+			if strings.Contains(v.Site, sub) {
+				return k
+			}
 		}
 	}
 	return nil
@@ -494,8 +503,25 @@ func checkCmd(p *propCfg, tier, repo string, writeEvidence bool) int {
 		rdir = replayDir
 	}
 	os.MkdirAll(rdir, 0o755)
+	shrunk := 0
 	for _, k := range keys {
 		cases := agg.byKey[k]
+		if shrunk >= 6 {
+			// enough minimised witnesses; the rest is reported from its first recorded case
+			v := violOf(cases[0])
+			if matchKnown(known, p.ID, v) == nil {
+				name := fmt.Sprintf("%s-%s-%s.json", p.ID, sanitize(v.Class), sanitize(v.Site))
+				path := filepath.Join(rdir, name)
+				writeJSON(path, cases[0])
+				fmt.Printf("VIOLATION property=%s replay=%s\n  class=%s site=%s detail=%s (seen in %d runs; not minimised)\n", p.ID, path, v.Class, v.Site, v.Detail, agg.violCount[k])
+				reported = append(reported, map[string]any{"class": v.Class, "site": v.Site, "detail": v.Detail, "count": agg.violCount[k], "replay": path})
+				if exit == 0 {
+					exit = 1
+				}
+			}
+			continue
+		}
+		shrunk++
 		c, v, conf := shrinkAndConfirm(p, worker, dir, cases)
 		if c == nil {
 			// could not be reproduced in a fresh process: machinery trouble, not a verdict
@@ -628,29 +654,29 @@ func writeJSON(path string, v any) {
 
 func writeEvidenceFile(p *propCfg, tier string, seed uint64, a *aggT, reported []map[string]any, wall, buildS, budgetS float64, nW, detN, exit int) {
 	cov := map[string]any{
-		"evaluations":         a.runs,
-		"distinct_nontrivial": a.distinct,
-		"rule":                p.Rule,
-		"samples":             a.samples,
-		"exhaustive":          false,
-		"simulated_runs":      a.runs,
-		"runs_per_hour":       int(float64(a.runs) / (budgetS / 3600)),
-		"seeds_per_hour":      int(float64(a.runs) / (budgetS / 3600)),
-		"scheduler_steps":     a.steps,
-		"simulated_time_ns":   a.simNs,
-		"faults_fired":        a.faults,
-		"reach_probes":        a.probes,
-		"run_endings":         a.ends,
-		"porcupine":           map[string]int{"ok": a.porcOK, "illegal": a.porcIllegal, "unknown_inconclusive": a.porcUnknown},
-		"race_detector":       map[string]any{"enabled": p.Race, "reports": a.races},
-		"real_components":     p.Real,
-		"stubbed_components":  p.Stubs,
-		"workers":             nW,
-		"build_s":             buildS,
-		"exploration_budget_s": budgetS,
+		"evaluations":           a.runs,
+		"distinct_nontrivial":   a.distinct,
+		"rule":                  p.Rule,
+		"samples":               a.samples,
+		"exhaustive":            false,
+		"simulated_runs":        a.runs,
+		"runs_per_hour":         int(float64(a.runs) / (budgetS / 3600)),
+		"seeds_per_hour":        int(float64(a.runs) / (budgetS / 3600)),
+		"scheduler_steps":       a.steps,
+		"simulated_time_ns":     a.simNs,
+		"faults_fired":          a.faults,
+		"reach_probes":          a.probes,
+		"run_endings":           a.ends,
+		"porcupine":             map[string]int{"ok": a.porcOK, "illegal": a.porcIllegal, "unknown_inconclusive": a.porcUnknown},
+		"race_detector":         map[string]any{"enabled": p.Race, "reports": a.races},
+		"real_components":       p.Real,
+		"stubbed_components":    p.Stubs,
+		"workers":               nW,
+		"build_s":               buildS,
+		"exploration_budget_s":  budgetS,
 		"determinism_selfcheck": map[string]any{"runs_compared": detN, "processes": 2, "gomaxprocs": []int{1, 4}, "identical": true},
-		"findings":            reported,
-		"notes":               a.notes,
+		"findings":              reported,
+		"notes":                 a.notes,
 	}
 	nViol := 0
 	for _, r := range reported {
